@@ -37,3 +37,15 @@ Theorem model_slave_classes_use_them : forall s,
   /\ slave_is_single_device s = ((snd (fst (fst gen_SLAVE)) <=? s) && (s <=? snd (fst gen_SLAVE)))
   /\ slave_is_reserved s = (snd (fst gen_SLAVE) <? s).
 Proof. intros s. repeat split; reflexivity. Qed.
+
+(* Request::function_code / Response::function_code as written in the source name, for every variant, the function code the
+   model's req_fc / rsp_fc compute (Custom passing its own code on is part of the accepted shape) *)
+Theorem gen_req_fc_table_is_model : expand_pairs gen_req_fc_table = expand_pairs req_fc_table_model /\ length gen_req_fc_table = length req_fc_table_model.
+Proof. vm_compute. split; reflexivity. Qed.
+Theorem gen_rsp_fc_table_is_model : expand_pairs gen_rsp_fc_table = expand_pairs rsp_fc_table_model /\ length gen_rsp_fc_table = length rsp_fc_table_model.
+Proof. vm_compute. split; reflexivity. Qed.
+(* and the model's table is what req_fc / rsp_fc do, for every request and response *)
+Theorem model_req_fc_table_is_req_fc : forall r, lookup_pair req_fc_table_model (req_variant r) = Some (fc_short_name (req_fc r)).
+Proof. destruct r; vm_compute; reflexivity. Qed.
+Theorem model_rsp_fc_table_is_rsp_fc : forall r, lookup_pair rsp_fc_table_model (rsp_variant r) = Some (fc_short_name (rsp_fc r)).
+Proof. destruct r; vm_compute; reflexivity. Qed.
